@@ -9,7 +9,8 @@ namespace Driver.Load
         | ["dict",[[key, task|null]]] | ["callable"] | ["object"]
     T = {"name","task_dep","wild_dep","setup","calc_dep","targets","file_dep","subtask_of":s|null,"has_subtask":b}
     answer `{"load":O,"control":O}` with O = {"out":"tasks","tasks":[T]} | {"out":"invalidTask"|"invalidDodo"} |
-    {"out":"crash","exn":"TypeError"|"AttributeError"}; at control level every T also has "pre" (task_dep before the
+    {"out":"crash","exn":"TypeError"|"AttributeError"}, plus "safe"/"tidy": the decidable hypotheses `Safe cs`, `Tidy cs`
+    of total_partial / wellformed_groups_partial; at control level every T also has "pre" (task_dep before the
     implicit ones) and "implicit". -/
 
 abbrev NM := DoitModel.Load.Name
@@ -93,18 +94,19 @@ def errJ : Err → Json
 def handle (j : Json) : Json :=
   let cmds := jnames j "cmds"
   let cs := (jarr j "creators").map parseCreator
+  let hyp : List (String × Json) := [("safe", Json.bool (Safe cs)), ("tidy", Json.bool (Tidy cs))]
   match loadTasks cmds cs with
-  | .error e => Json.mkObj [("load", errJ e), ("control", errJ e)]
+  | .error e => Json.mkObj ([("load", errJ e), ("control", errJ e)] ++ hyp)
   | .ok ts =>
     let lj := Json.mkObj [("out", "tasks"), ("tasks", mkArr (ts.map fun t => taskJ t []))]
     let names := ts.map (·.name)
     let ts1 := ts.map (expandWild names)
     match control ts with
-    | .error e => Json.mkObj [("load", lj), ("control", errJ e)]
+    | .error e => Json.mkObj ([("load", lj), ("control", errJ e)] ++ hyp)
     | .ok ts2 =>
       let pre := ts1.map (·.taskDep)
       let outs := (ts2.zip pre).map fun (t, p) =>
         taskJ t [("pre", namesJ p), ("implicit", namesJ (t.taskDep.drop p.length))]
-      Json.mkObj [("load", lj), ("control", Json.mkObj [("out", "tasks"), ("tasks", mkArr outs)])]
+      Json.mkObj ([("load", lj), ("control", Json.mkObj [("out", "tasks"), ("tasks", mkArr outs)])] ++ hyp)
 
 end Driver.Load
